@@ -4,3 +4,11 @@ A violating execution is attributed to an open finding only if the matching
 function here says that the observed behaviour is exactly what the defective
 mechanism computes on that input.  Everything else stays a VIOLATION.
 """
+
+
+def c08_classify(logic, t, obj):
+    return None
+
+
+def c08_classify_mc(logic, t, why, call):
+    return None
